@@ -224,7 +224,29 @@ def whole_document_cases(tier):
     yield "document/dup-inside-metadata-only", doc(res, md), "duplicate"
 
 
+def scale_cases(tier):
+    """beyond the small: several roles on both sides (copied + own roles up to 3 + 4), personnel under a project, and
+    documents with 257, 300 and 1 000 id-bearing elements of which the first and the last are referenced"""
+    for own in (1, 2, 3, 4):
+        for theirs in (1, 2, 3):
+            tgt = ["associatedParty", None, {"id": "id0"}, PARTY_VARIANTS[1](0) + [["role", f"r{k}", {}, []] for k in range(theirs)]]
+            parts = [tgt, referencing("associatedParty", "id0", roles=own)]
+            yield f"roles/{theirs}+{own}", skeleton(parts + [["contact", None, {}, PARTY_VARIANTS[0](8)]]), None
+            pt = ["personnel", None, {"id": "id0"}, PARTY_VARIANTS[0](0) + [["role", f"r{k}", {}, []] for k in range(theirs)]]
+            proj = ["project", None, {}, [["title", "p", {}, []], pt, referencing("personnel", "id0", roles=own)]]
+            yield f"personnel-roles/{theirs}+{own}", skeleton([["creator", None, {}, PARTY_VARIANTS[0](9)], ["contact", None, {}, PARTY_VARIANTS[0](8)], proj]), None
+    for n in (257, 300, 1000):
+        parts = [referenced("creator", i, i % 3) for i in range(n)]
+        parts += [referencing("contact", "id0"), referencing("contact", f"id{n - 1}"), referencing("contact", f"id{n // 2}")]
+        yield f"many-ids/{n}", skeleton(parts), None
+        parts = [referenced("creator", i, 0) for i in range(n)]
+        parts[n - 1][2]["id"] = "id0"
+        yield f"many-ids/{n}/dup-first-last", skeleton(parts + [referencing("contact", "id1")]), "duplicate"
+        yield f"many-ids/{n}/dangling", skeleton(parts[:-1] + [referencing("contact", "nope")]), "dangling"
+
+
 def all_cases(tier):
+    yield from scale_cases(tier)
     yield from no_reference_cases(tier)
     yield from extra_cases(tier)
     yield from whole_document_cases(tier)
